@@ -227,6 +227,9 @@ class C09(CheckBase):
         if kind == 'prefix_all':
             tot = len(intact)
             for k in range(1, tot):
+                if ctx.expired():
+                    out.probe('enumeration-cut-short')
+                    break
                 # express k in (line, off) coordinates
                 li = 0
                 while li < len(f['lines']) and line_start(f, li + 1) <= k:
